@@ -216,3 +216,136 @@ Example C16_log_example :
   match qq_unmap_exact 0 2 0 (SLin (mkLin 0 4 false)) (SLog (mkLog 1 16 false)) (XFin 2) with
   | Some (XFin q) => Qred q = 1 | _ => False end.
 Proof. vm_compute. repeat split; reflexivity. Qed.
+
+(* ================= what an accepted verdict of the correspondence check means ================= *)
+(* (group hF) check_C16 is a hand-written program; these theorems say that a verdict 0/1 implies
+   that every observed number on the line is within the stated tolerance of the specification:
+   the line parses completely into a case ([p_case16], nothing left over) and [case_ok] holds,
+   i.e. (Proofs/CheckC16.v)
+   - NewLog: for finite arguments the status is "nil error" exactly when base >= 2 and both ends
+     are non-zero of one sign, the result then holds the ends ascending and the base; otherwise
+     the status is RangeErr (non-finite arguments: the decision of log.go:36-49);
+   - Linear scale: every probe's Map is within 1e-12 (1+|y|) of the affine value
+     y = (x-Min)/(Max-Min) (1/2 if Min = Max), the Map after SetClamp(true) is exactly the clamp of
+     it, Unmap of it within 1e-12 (|m (Max-Min)| + |Min|) of m (Max-Min) + Min, every y-probe likewise,
+     and neighbouring grid values differ strictly in the direction of the domain;
+   - Log scale: decision structure exactly, closed-form values to 1e-10, ends to 1e-12, inverse
+     laws to 1e-9 (read over the reals in C16_log_obs_* below);
+   - QQ: QQ.Map x is bit for bit Dest.Unmap (Src.Map x), within tol_qq of the exact composite
+     where that is rational (always for Linear -> Linear), and QQ.Unmap (QQ.Map x) returns to x
+     under the stated guard.  check_C16 has no borderline verdict (code 1 is never produced). *)
+From MM Require Import Check.C16 Proofs.CheckBase Proofs.CheckC16 Proofs.CheckC16R.
+
+Theorem C16_check_ok_sound : forall line c tag pos diag,
+  check_C16 line = verdict c tag pos diag -> (c = 0 \/ c = 1)%Z ->
+  exists cs, p_case16 line = Some (cs, []) /\ case_ok cs.
+Proof. exact check_ok_sound. Qed.
+Print Assumptions C16_check_ok_sound.
+
+(* the check IS "parse, then compare": nothing is accepted outside [compare16] *)
+Theorem C16_check_factor : forall line, check_C16 line = outC (p_case16 line).
+Proof. exact check_C16_factor. Qed.
+Print Assumptions C16_check_factor.
+
+(* the specification used for Linear observations is the function C16_linear_* are about *)
+Theorem C16_lin_spec_is_model : forall s x y,
+  is_lin_map (l_min s) (l_max s) x y <-> y == lin_map (lin_set_clamp s false) x.
+Proof. exact is_lin_map_iff. Qed.
+Print Assumptions C16_lin_spec_is_model.
+
+(* Linear, Clamp: the Map observed after SetClamp(true) is within the Map tolerance of
+   clamp((x-Min)/(Max-Min)) = lin_map (lin_set_clamp s true) x  (C16_linear_clamp) *)
+Theorem C16_linear_obs_clamped : forall mn mx r p, lin_probe_ok mn mx r p ->
+  exists y m1, is_lin_map mn mx (p_x p) y /\ p_m1 p = XFin m1 /\ Qabs (m1 - clampq y) <= tol_lin_map y.
+Proof. exact lin_probe_clamped. Qed.
+Print Assumptions C16_linear_obs_clamped.
+
+(* Linear, inverse law on the observations *)
+Theorem C16_linear_obs_inverse : forall mn mx r p, ~ mn == mx -> lin_probe_ok mn mx r p ->
+  exists y m u, is_lin_map mn mx (p_x p) y /\ p_m0 p = XFin m /\ p_ux p = XFin u /\
+    Qabs (u - p_x p) <= tol_lin_unmap mn mx m + tol_lin_map y * Qabs (mx - mn).
+Proof. exact lin_probe_inverse. Qed.
+Print Assumptions C16_linear_obs_inverse.
+
+(* QQ Linear -> Linear: every probe is compared with the exact composite *)
+Theorem C16_qq_lin_lin_sound : forall ls ld bs bd p x, q_x p = XFin x ->
+  qq_probe_okQ (SLin ls) (SLin ld) bs bd p ->
+  exists y' o, lin_map_c ls x y' /\ q_qm p = XFin o /\
+    Qabs (o - lin_unmap_spec (l_min ld) (l_max ld) y') <=
+      e9 * (Qabs (y' * (l_max ld - l_min ld)) + Qabs (l_min ld) + Qabs (l_max ld - l_min ld)).
+Proof. exact qq_lin_lin_sound. Qed.
+Print Assumptions C16_qq_lin_lin_sound.
+
+(* NewLog, finite arguments: the acceptance rule of the property *)
+Theorem C16_newlog_obs_finite : forall a b base st rmn rmx rb,
+  newlog_ok (XFin a) (XFin b) base st rmn rmx rb -> newlog_fin_ok a b base st rmn rmx rb.
+Proof. exact newlog_ok_fin. Qed.
+Print Assumptions C16_newlog_obs_finite.
+
+(* Log scales, over the reals (g : the scale of the line, Clamp off as the parser builds it) *)
+Theorem C16_log_obs_nan_iff : forall g b, g_clamp g = false -> forall x m0, log_map_okQ g b x m0 ->
+  (log_mapR (Q2R (g_min g)) (Q2R (g_max g)) false (Q2R x) = None <-> m0 = XNaN).
+Proof. exact log_obs_nan_iff. Qed.
+Print Assumptions C16_log_obs_nan_iff.
+
+Theorem C16_log_obs_value : forall g b, g_clamp g = false -> forall x m0 y, log_map_okQ g b x m0 ->
+  log_mapR (Q2R (g_min g)) (Q2R (g_max g)) false (Q2R x) = Some y ->
+  exists q, m0 = XFin q /\
+    forall e, lmap_exact b (log_map_dec g x) = Some (XFin e) ->
+      y = Q2R e /\ (Rabs (Q2R q - y) <= Q2R e10 * (1 + Rabs y))%R.
+Proof. exact log_obs_value. Qed.
+Print Assumptions C16_log_obs_value.
+
+Theorem C16_log_obs_ends : forall g b, g_clamp g = false -> forall x m0, log_map_okQ g b x m0 ->
+  valid (Q2R (g_min g)) (Q2R (g_max g)) -> Q2R (g_min g) <> Q2R (g_max g) ->
+  (x == g_min g -> log_mapR (Q2R (g_min g)) (Q2R (g_max g)) false (Q2R x) = Some 0%R /\
+                   exists q, m0 = XFin q /\ (Rabs (Q2R q - 0) <= Q2R e12)%R) /\
+  (x == g_max g -> log_mapR (Q2R (g_min g)) (Q2R (g_max g)) false (Q2R x) = Some 1%R /\
+                   exists q, m0 = XFin q /\ (Rabs (Q2R q - 1) <= Q2R e12)%R).
+Proof. exact log_obs_ends. Qed.
+Print Assumptions C16_log_obs_ends.
+
+Theorem C16_log_obs_degenerate : forall g b, g_clamp g = false -> forall x m0, log_map_okQ g b x m0 ->
+  g_min g == g_max g ->
+  log_mapR (Q2R (g_min g)) (Q2R (g_max g)) false (Q2R x) = None /\ m0 = XNaN \/
+  log_mapR (Q2R (g_min g)) (Q2R (g_max g)) false (Q2R x) = Some (/ 2)%R /\ exists q, m0 = XFin q /\ Q2R q = (/ 2)%R.
+Proof. exact log_obs_degenerate. Qed.
+Print Assumptions C16_log_obs_degenerate.
+
+Theorem C16_log_obs_inverse : forall g, g_clamp g = false -> forall x ux y, log_unmap_of_map_okQ g x ux ->
+  valid (Q2R (g_min g)) (Q2R (g_max g)) -> Q2R (g_min g) <> Q2R (g_max g) ->
+  log_mapR (Q2R (g_min g)) (Q2R (g_max g)) false (Q2R x) = Some y ->
+  log_unmapR (Q2R (g_min g)) (Q2R (g_max g)) y = Q2R x /\
+  exists u, ux = XFin u /\
+    (Rabs (Q2R u - log_unmapR (Q2R (g_min g)) (Q2R (g_max g)) y) <= Q2R e9 * Rabs (Q2R x))%R.
+Proof. exact log_obs_inverse. Qed.
+Print Assumptions C16_log_obs_inverse.
+
+Theorem C16_log_obs_unmap : forall g b y uy muy, log_yprobe_okQ g b (y, uy, muy) ->
+  exists u, uy = XFin u /\
+    ((Q2R (g_min g) < 0)%R -> (Q2R u < 0)%R) /\ ((0 <= Q2R (g_min g))%R -> (0 < Q2R u)%R) /\
+    (forall e, lunmap_exact b e12 (log_unmap_dec g y) = Some e ->
+               lunmap_exact b 0 (log_unmap_dec g y) = Some e ->
+       log_unmapR (Q2R (g_min g)) (Q2R (g_max g)) (Q2R y) = Q2R e /\
+       (Rabs (Q2R u - log_unmapR (Q2R (g_min g)) (Q2R (g_max g)) (Q2R y)) <= Q2R e9 * Rabs (Q2R e))%R) /\
+    (Q2R (g_min g) <> Q2R (g_max g) ->
+       exists m, muy = XFin m /\ (Rabs (Q2R m - Q2R y) <= Q2R (tolm (SLog g)) * (1 + Rabs (Q2R y)))%R).
+Proof. exact log_obs_unmap. Qed.
+Print Assumptions C16_log_obs_unmap.
+
+(* non-vacuity: real lines written by the harness on /repo (definitions and the cases they come
+   from are in Proofs/CheckC16.v) are accepted, so the hypotheses of C16_check_ok_sound hold *)
+Example C16_check_examples :
+  check_C16 ex_line_linear = verdict 0 4289 (-1) [] /\
+  check_C16 ex_line_newlog_ok = verdict 0 32768 (-1) [] /\
+  check_C16 ex_line_newlog_err = verdict 0 16384 (-1) [] /\
+  check_C16 ex_line_newlog_swapped = verdict 0 32832 (-1) [] /\
+  check_C16 ex_line_qq_linlin = verdict 0 1537 (-1) [] /\
+  check_C16 ex_line_log = verdict 0 7470 (-1) [] /\
+  check_C16 ex_line_qq_linlog = verdict 0 132615 (-1) [].
+Proof. vm_compute. repeat split; reflexivity. Qed.
+(* ... and a line with one observation changed (Map(1) reported as 0.75 instead of 0.5) is not *)
+Example C16_check_example_rejects :
+  nth_error ex_line_linear 22 = Some 0x3fe0000000000000%Z /\
+  exists v, check_C16 (firstn 22 ex_line_linear ++ [0x3fe8000000000000%Z] ++ skipn 23 ex_line_linear) = verdict 2 v 193 [1%Z; 2%Z].
+Proof. vm_compute. split; [reflexivity|eexists; reflexivity]. Qed.
